@@ -15,6 +15,8 @@ pub fn unhex6(s: &str) -> String {
 }
 
 pub fn gen_decimal(r: &mut Rng, allow_zero: bool) -> Decimal {
+    // an exact zero where the grammar allows one (a gift at price 0, a worthless disposal, a zero total)
+    if allow_zero && r.chance(1, 12) { return Decimal::ZERO; }
     let scale = match r.below(6) { 0 => 0, 1 => 2, 2 => r.below(5) as u32, 3 => r.below(29) as u32, _ => r.below(3) as u32 };
     let mant: i128 = match r.below(8) {
         0 => r.range(1, 9) as i128,
